@@ -112,6 +112,7 @@ package fpgo
 
 //@ func (StreamDef).Minus
 //@   prop C04,C05
+//@   ensures shorter: len(*r0) <= len(*streamSelf)
 //@   ghost g (Array Int Int)
 //@   ghost pos (Array Int Int)
 //@   ghostset g = Minus_g
@@ -127,6 +128,7 @@ package fpgo
 
 //@ func (StreamDef).RemoveItem
 //@   prop C04,C05
+//@   ensures shorter: len(*r0) <= len(*streamSelf)
 //@   ghost g (Array Int Int)
 //@   ghost pos (Array Int Int)
 //@   ghostset g = Minus_g
